@@ -463,4 +463,46 @@ example : ¬ RegDisc Dir.empty (managedOpenWriteOps [2, 1] ⟨0, 0, 5, [0, 2]⟩
 example : RegDisc Dir.empty (managedOpenWriteOps Gen.MANAGED_OPEN_WRITE_STEPS ⟨0, 0, 5, [0, 2]⟩ 2) :=
   C10_open_write_registers_first _ _ _ (by decide) (by intro q h; simp [Dir.empty, FileSt.mayPresent] at h)
 
+/-- the three ways a `SegmentMeta` object comes to life in the code
+(1 `SegmentMetaInventory::new_segment_meta`: a fresh segment id, none of its files exists yet;
+ 2 `with_max_doc` / `with_delete_meta` (`TrackedObject::map`): derived from a live meta, same
+   segment files plus possibly a delete-file name that was never created;
+ 3 `IndexMeta::deserialize` of the current meta.json: files of the committed segments) -/
+inductive MetaSource (s : FSt) : List Path → Prop
+  | fresh (fs : List Path) (h : ∀ p ∈ fs, s.base.managed.contains p = false) : MetaSource s fs
+  | derived (fs l : List Path) (hl : l ∈ s.base.live)
+      (h : ∀ p ∈ fs, p ∈ l ∨ s.base.managed.contains p = false) : MetaSource s fs
+  | deserialized (fs : List Path) (h : ∀ p ∈ fs, p ∈ s.metaFiles ∨ s.base.managed.contains p = false) :
+      MetaSource s fs
+
+/-- **no resurrection is derived for the code's meta sources**: in every state satisfying the
+fine-grained invariant, a meta that comes to life in one of the three ways above satisfies the
+no-resurrection condition of the discipline — it is not an extra assumption for them.
+(That these are the only places a tracked meta is constructed is extracted:
+`C10_meta_sources_extracted`.) -/
+theorem C10_no_resurrection_for_code_sources (s : FSt) (h : FInv s) (fs : List Path)
+    (hs : MetaSource s fs) (g r : Bool) : okF g r s (.track fs) = true := by
+  simp only [okF, okEv, List.all_eq_true, Bool.or_eq_true, Bool.not_eq_true']
+  intro p hp
+  cases hs with
+  | fresh hf => exact Or.inl (hf p hp)
+  | derived l hl hd =>
+    rcases hd p hp with hpl | hm
+    · right
+      simp only [living, List.contains_eq_mem, List.mem_cons, List.mem_flatten, decide_eq_true_eq]
+      exact Or.inr ⟨l, hl, hpl⟩
+    · exact Or.inl hm
+  | deserialized hd =>
+    rcases hd p hp with hpm | hm
+    · right
+      simpa using (h.metaLive p hpm).1
+    · exact Or.inl hm
+
+example : MetaSource fdemo [10, 11, 12] := .derived _ [10, 11] (by decide) (by decide)
+example : MetaSource fdemo [10, 11] := .deserialized _ (by decide)
+example : MetaSource fdemo [60, 61] := .fresh _ (by decide)
+
+/-- the source has exactly the constructor sites the three cases cover -/
+theorem C10_meta_sources_extracted : Gen.META_SOURCE_SITES = [2, 2] := by decide
+
 end TantivyModel.C10
